@@ -29,6 +29,9 @@ type c09Case struct {
 	Burst         int   `json:"burst_behind_slow_head,omitempty"` // >0: a head request answered after 300 ms, this many fast requests right behind it, then silence
 	Lone          bool  `json:"lone_requests,omitempty"`          // three clients each send single requests to a node of their own and stay silent in between; replies are arrays of tiny elements, empty arrays, null bulks ...
 	SlowPartnerMs int   `json:"slow_partner_ms,omitempty"`        // >0: four clients each send GET a; MGET a c in one write, node C answers this late: GET's reply must not wait for the MGET
+	// Late: a client that lets answered replies pile up, consumes them in stages while asking for more, and
+	// finally reads at full speed: once it reads, everything the backends answered must reach it (runPhased)
+	Late *PipeSpec `json:"late_reader,omitempty"`
 }
 
 const c09Delta = time.Second
@@ -55,6 +58,12 @@ func c09Gen(t *rapid.T) c09Case {
 	}
 	c.SplitEach = rapid.SampledFrom([]int{0, 0, 3, 10}).Draw(t, "split")
 	c.Second = rapid.Bool().Draw(t, "second")
+	if rapid.IntRange(0, 7).Draw(t, "latemode") == 0 {
+		cs, plans := genPhased(t, false)
+		c.Late = &PipeSpec{Clients: []ClientSpec{cs}, Plans: plans}
+		c.Nodes, c.SplitEach, c.Second, c.LatMs = 3, 0, false, []int{0}
+		return c
+	}
 	if rapid.IntRange(0, 6).Draw(t, "lonemode") == 0 {
 		c.Lone = true
 		c.Nodes, c.SplitEach, c.Second, c.DurMs = 3, 0, false, 2600
@@ -117,6 +126,21 @@ func (m *lagMeter) finish() time.Duration {
 func c09Exec(c *c09Case) ([]Discrepancy, bool) {
 	var ds []Discrepancy
 	var nt bool
+	if c.Late != nil {
+		f := getFixture("C09", sut.Config{ServerConns: 1, SndBuf: 4096}, 3, 0)
+		rc := &refCtx{Owners: f.Owners}
+		exp := expectedFor(&c.Late.Clients[0], indexPlans(c.Late), rc)
+		res := runPhased(f, c.Late, len(exp))
+		ds = f.checkAlive("C09", nil)
+		if cr := &res.Clients[0]; len(ds) == 0 && len(cr.Replies) < len(exp) && !cr.EOF && cr.BadResp == nil {
+			ds = append(ds, disc("C09/reply-withheld", "the backends answered all %d requests and the client is reading, yet only %d replies reached it and then nothing for 10 s (%d bytes of the next one arrived)", len(exp), len(cr.Replies), len(cr.Pending)))
+		}
+		if len(ds) > 0 {
+			dropFixture(f)
+		}
+		evidence.For("C09").Add("requests_judged", len(exp))
+		return ds, len(c.Late.Clients[0].Phases) > 1
+	}
 	for attempt := 0; attempt < 3; attempt++ {
 		f := getFixture("C09", sut.Config{ServerConns: 1}, 3, 0)
 		ds, nt = c09Run(f, c)
@@ -383,6 +407,9 @@ func TestC09(t *testing.T) {
 		}
 		if c.Lone {
 			cls = append(cls, "lone-requests-with-tiny-replies")
+		}
+		if c.Late != nil {
+			cls = []string{"backlog-consumed-in-stages-by-a-late-reader"}
 		}
 		if nt {
 			cls = append(cls, "always-outstanding")
